@@ -889,6 +889,12 @@ class DBusObjectHandler :
                     errMsg = ('!!(Invalid error name "%s")!! ' % name) + errMsg
                     name = 'org.txdbus.InvalidErrorName'
 
+                # The text has to be a valid DBus string (no NUL, encodable
+                # as UTF-8); otherwise the error reply itself could not be
+                # marshalled and the caller would never be answered
+                errMsg = errMsg.replace('\0', '\\x00').encode(
+                    'utf-8', 'backslashreplace').decode('utf-8')
+
                 r = message.ErrorMessage(name, msg.serial,
                                          body=[errMsg],
                                          signature='s',
